@@ -258,6 +258,10 @@ func buildStubs() map[string]stubFn {
 		in.opts.MapReverse = termArg(args[0]).C == 1
 		return nil
 	}
+	m["vsym.InlineGoroutines"] = func(in *Interp, fn *ssa.Function, args []Value) Value {
+		in.inlineGo = true
+		return nil
+	}
 	m["vsym.FreezeClock"] = func(in *Interp, fn *ssa.Function, args []Value) Value {
 		in.frozenClock = termArg(args[0])
 		return nil
